@@ -3,6 +3,7 @@
 package main
 
 import (
+	"encoding/json"
 	"flag"
 	"fmt"
 	"os"
@@ -26,6 +27,7 @@ func main() {
 	replay := flag.String("replay", "", "print the findings recorded in a replay file and re-run the property")
 	list := flag.Bool("list", false, "list registered properties")
 	opsFlag := flag.Bool("ops", false, "debug: dump the bucket operation table")
+	fpFlag := flag.Bool("fingerprints", false, "dev: print the anchor fingerprints of the loaded tree as JSON (written to anchors.json for the reviewed tree)")
 	layoutFlag := flag.Bool("layout", false, "debug: dump the constant-offset record accesses of the codec functions")
 	patch := flag.String("patch", "", "analyse /repo with this unified diff applied through a go/packages overlay (scratch copies; /repo is not modified)")
 	evDir := flag.String("evidence-dir", "", "write evidence/replay files here instead of <verif>/evidence")
@@ -50,6 +52,7 @@ func main() {
 			verifDir, _ = os.Getwd()
 		}
 	}
+	an.AnchorFile = filepath.Join(verifDir, "anchors.json")
 	if *replay != "" {
 		b, err := os.ReadFile(*replay)
 		if err != nil {
@@ -73,6 +76,11 @@ func main() {
 	if err != nil {
 		fmt.Fprintf(os.Stderr, "mwcheck: cannot analyse %s: %v\n", *repo, err)
 		os.Exit(2)
+	}
+	if *fpFlag {
+		b, _ := json.MarshalIndent(p.Anchors(), "", " ")
+		fmt.Println(string(b))
+		return
 	}
 	if *opsFlag {
 		rules.DumpOps(p)
